@@ -30,7 +30,7 @@ def Q(name, unit, harness, defs, unwind, desc='', bounds='', timeout=900, mem_gb
     return d
 
 
-PRINTF_LOOPS = ','.join('X_vasprintf.%d:17' % i for i in range(12))  # stub_printf.h scans up to 16 hex digits
+PRINTF_LOOPS = ','.join('verif_fmt_core.%d:17' % i for i in range(14))  # stub_printf.h scans up to 16 hex digits
 
 
 def queries(tier):
